@@ -23,6 +23,11 @@ type reachCursor struct {
 	adjacentIdx int
 	reach       cardinality.Duplex[uint64]
 	ancestor    *reachCursor
+
+	// partial is set when an adjacent component was skipped because another branch of the same search had already
+	// visited it and its reach could not be merged from the cache. The reach of a partial cursor is a valid
+	// contribution to its ancestors but is not the component's full reach and must not be cached.
+	partial bool
 }
 
 // Complete merges the reach bitmap of this cursor into its ancestor’s bitmap.
@@ -31,6 +36,11 @@ type reachCursor struct {
 func (s *reachCursor) Complete() {
 	if s.ancestor != nil {
 		s.ancestor.reach.Or(s.reach)
+
+		// The root cursor's reach doubles as the visited set of the search and is therefore always complete
+		if s.partial && s.ancestor.ancestor != nil {
+			s.ancestor.partial = true
+		}
 	}
 }
 
@@ -225,8 +235,10 @@ func (s *ReachabilityCache) componentReachDFS(component uint64, direction graph.
 			// Complete the cursor to roll up reach cardinalities
 			nextCursor.Complete()
 
-			// Update the cache with this component's reach
-			s.cacheComponentReach(nextCursor, direction)
+			// Update the cache with this component's reach, unless part of it was pruned by the shared visited set
+			if !nextCursor.partial {
+				s.cacheComponentReach(nextCursor, direction)
+			}
 		} else if rootCursor.reach.CheckedAdd(nextAdjacentComponent) {
 			// This is a component not yet visited, check if it is cached. If it
 			// is cached, Or(...) its reach and if not traverse into it.
@@ -234,6 +246,14 @@ func (s *ReachabilityCache) componentReachDFS(component uint64, direction graph.
 				nextCursor.reach.Or(cachedReach)
 			} else {
 				stack.PushBack(s.newReachCursor(nextAdjacentComponent, direction, nextCursor))
+			}
+		} else if nextCursor != rootCursor {
+			// The component was already visited through another branch of this search. The root's reach has it,
+			// but this cursor's own reach only does if the component's reach can be merged in now.
+			if cachedReach, cached := s.cachedComponentReach(nextAdjacentComponent, direction); cached {
+				nextCursor.reach.Or(cachedReach)
+			} else {
+				nextCursor.partial = true
 			}
 		}
 	}
